@@ -126,8 +126,10 @@ package basestore
 //@   loop 1 invariant oplog == L && joinCalls(L) == J0 + $i
 //@   loop 1 invariant? joined >= 0 && (joined == 0 ==> valsOf(L) == old(valsOf(L)) && idxState(b.index) == old(idxState(b.index)))
 //@   loop 1 invariant forall x Iface :: old(ents(L)[x]) ==> ents(L)[x]
+//@   loop 1 invariant forall j Int :: 0 <= j && j < len(entries) ==> ents(L)[entries[j]]
 //@   loop 1 invariant evCount(R) == N0 && statusProgress(b.replicationStatus) <= statusMax(b.replicationStatus)
 //@   assert @ before call oplog.Join#1: prov(log) != 0 && logID(log) == logID(oplog) && acOf(log) == acOf(oplog)
+//@   assert @ before call b.emitters.evtReplicated.Emit#1: forall j Int :: 0 <= j && j < len(entries) ==> ents(L)[entries[j]]
 //@   assert @ before call b.emitters.evtReplicated.Emit#1: synced(b) && dsHas(C)[RH] && len(headsDec(dsMap(C)[RH])) == len(headsOf(L)) && (forall j Int :: 0 <= j && j < len(headsOf(L)) ==> hs(headsDec(dsMap(C)[RH])[j]) == hs(headsOf(L)[j]))
 //@   ensures joinCalls(L) == J0 + len(logs)
 //@   ensures forall x Iface :: old(ents(L)[x]) ==> ents(L)[x]
@@ -207,7 +209,7 @@ package basestore
 // InitBaseStore (C09 C03): the log of the store is built with the store's address and access controller,
 // and the main loop subscribes to a bus that belongs to this store's replicator alone.
 //@ func (*BaseStore).InitBaseStore
-//@   props C09 C03
+//@   props C09 C03 C04
 //@   flag no-safety
 //@   assert @ before call options.Index#1: acOf(b.oplog) == b.access && logID(b.oplog) == addrStr(addr)
 //@   assert @ before call b.replicator.EventBus().Subscribe#1: freshBus(replBus(b.replicator))
